@@ -16,7 +16,8 @@ THEOREMS = ["Poor.Regex.ms_sound", "Poor.Props.C02.source_facts", "Poor.Props.C0
             "Poor.Props.C02.inline_re_verbatim", "Poor.Props.C02.C20_route",
             "Poor.Props.C02.C02_reregister_keeps_place", "Poor.Props.C02.C02_new_pattern_last",
             "Poor.Props.C02.C02_registration_order", "Poor.Props.C02.C02_latest_registration",
-            "Poor.Props.C02.C02_select_registered"]
+            "Poor.Props.C02.C02_select_registered", "Poor.Regex.ms_complete", "Poor.Regex.pyMatch_iff",
+            "Poor.Props.C02.C02_matcher_complete", "Poor.Props.C02.C02_match_exact"]
 TRUSTED_BASE = ["model Poor.Regex: fragment of Python re (checked differentially against CPython on every run); "
                 "patterns outside the fragment are answered `unsupported` and counted",
                 "model Poor.Route hand-written from wsgi.py:34,149-173,784-898,1023-1124",
